@@ -129,38 +129,15 @@ func ToCommandLine(wf WireFormat, resolveIds bool) (rule string, err error) {
 		existingFields[fieldID] = idx
 	}
 
-	// Detect if rule is a watch.
-	// Must have all syscalls and perm field. Only other valid fields are
-	// dir, path and key, according to auditctl source
-	if permIdx, ok := existingFields[permField]; r.allSyscalls && ok {
-		extraFields, pos := false, 0
-		var path, key string
-	loop:
-		for _, fieldID := range r.fields {
-			switch fieldID {
-			case keyField, pathField, dirField:
-				if pos >= len(r.strings) {
-					return "", fmt.Errorf("no buffer data for path field %d", fieldID)
-				}
-				if fieldID == keyField {
-					key = r.strings[pos]
-				} else {
-					path = r.strings[pos]
-				}
-				pos++
-			case permField:
-			default:
-				extraFields = true
-				break loop
-			}
+	// Detect if rule is a watch. Only rules that are exactly what -w produces
+	// (see addFileWatch) are listed in that form, anything else would be
+	// changed by re-adding it.
+	if path, perm, key, ok := r.asFileWatch(); ok {
+		arguments := []string{"-w", path, "-p", perm}
+		if len(key) > 0 {
+			arguments = append(arguments, "-k", key)
 		}
-		if !extraFields {
-			arguments := []string{"-w", path, "-p", permission(r.values[permIdx]).String()}
-			if len(key) > 0 {
-				arguments = append(arguments, "-k", key)
-			}
-			return strings.Join(arguments, " "), nil
-		}
+		return strings.Join(arguments, " "), nil
 	}
 
 	// Parse rule as syscall type
@@ -370,6 +347,40 @@ func addFileWatch(data *ruleData, rule *FileWatchRule) error {
 		return err
 	}
 	return nil
+}
+
+// asFileWatch reports whether the rule is one that addFileWatch builds: an
+// always,exit rule for all syscalls with a clean absolute path= or dir=, then
+// perm=, then optionally key=, and nothing else.
+func (r *ruleData) asFileWatch() (path, perm, key string, ok bool) {
+	n := len(r.fields)
+	if !r.allSyscalls || r.flags != exitFilter || r.action != alwaysAction ||
+		(n != 2 && n != 3) || len(r.strings) != n-1 {
+		return "", "", "", false
+	}
+	for _, op := range r.fieldFlags {
+		if op != equalOperator {
+			return "", "", "", false
+		}
+	}
+	if (r.fields[0] != pathField && r.fields[0] != dirField) || r.fields[1] != permField {
+		return "", "", "", false
+	}
+	path = r.strings[0]
+	if !filepath.IsAbs(path) || filepath.Clean(path) != path {
+		return "", "", "", false
+	}
+	bits := permission(r.values[1])
+	if bits == 0 || bits&^(readPerm|writePerm|execPerm|attrPerm) != 0 {
+		return "", "", "", false
+	}
+	if n == 3 {
+		key = r.strings[1]
+		if r.fields[2] != keyField || key == "" || strings.Contains(key, ",") {
+			return "", "", "", false
+		}
+	}
+	return path, bits.String(), key, true
 }
 
 func addKeys(data *ruleData, keys []string) error {
